@@ -1350,7 +1350,7 @@ class SymmetryAnalyzer(object):
                         for idx, var in variable_map.items():
                             for icomp in range(3):
                                 if M[idx][icomp] == 1:
-                                    W[idx] = R[idx] - C[idx]
+                                    W[idx] = R[icomp] - C[icomp]
                                     break
 
                         # Check that found variables make sense. Otherwise
